@@ -198,7 +198,7 @@ def run(ctx: vlib.Ctx):
     ctx.trusted += ["TyModel.v (cu/uk: hand-written model of unpack.py registry order incl. iteration of str/dict inputs, tuple surplus, field lookup, "
                     "NamedTuple positions with trailing defaults, TypedDict required/optional keys) "
                     "tied by vm_compute correspondence; stdlib constructors (int/float/str, fromisoformat, UUID, Decimal, ..., decodebytes, Enum()) are oracle tables"]
-    ctx.assumptions += ["unions/literals are decided by the oracle only; the collection unpackers rebuilding canonical concrete classes (Sequence->list, Mapping->dict, Deque, OrderedDict, "
+    ctx.assumptions += ["unions (C11) and enum-member / bytes literals are decided by the oracle only; Literal types of int/str/bool/None constants (exact class, nothing coerced), the collection unpackers rebuilding canonical concrete classes (Sequence->list, Mapping->dict, Deque, OrderedDict, "
                         "DefaultDict, MappingProxyType, Counter with int(), ChainMap from a list of maps), NamedTuple (as_list form), TypedDict and tuples with an unpacked segment are "
                         "inside the Coq grammar (C03_unpack_ref = the as-generated reading of the reference on every input; C03_unpack_ref_partial = the documented reference "
                         "unless it says 'too few items'; the unguarded statement is refuted: known finding unpacked-tuple-short-input; C03_well_typed; correspondence incl. "
@@ -213,7 +213,7 @@ def run(ctx: vlib.Ctx):
     hits = tyoracle.report_corr(ctx, "TyModel.uk/ref_dec vs BasicDecoder.decode", cases, bad, log, want="dec")
 
     n = ctx.budget(800, 5000) if not hits else ctx.budget(2500, 10000)
-    for fam, ns, t, ty, sg in tyoracle.schema_stream(ctx.rng, n):
+    for fam, ns, t, ty, sg in tyoracle.schema_stream(ctx.rng, n, literals=True):
         try:
             dec = BasicDecoder(ty)
             enc = BasicEncoder(ty)
